@@ -45,7 +45,7 @@ def units(tier):
         SL("slice.dispatch_vs_cancel", "x1_dispatch_vs_cancel", 16),
         SL("slice.feeder_error_vs_dispatch", "x2_feeder_error_vs_dispatch", 26),
         H("C01", "lokyverif.harness.c02_broken", "check_run_loop", t, ["loky.process_executor:_ExecutorManagerThread.run"],
-          "1..4 turns of the manager loop, each a wake-up / a result / a broken pool; shutdown flag raised at turn 0..4; work left or not after each turn"),
+          "1..3 turns of the manager loop, each a wake-up / a result / a broken pool; shutdown flag raised at turn 0..3; work left or not after each turn"),
         H("C01", "lokyverif.harness.c10_resize", "check_resize_terminates", t, ["loky.reusable_executor:_ReusablePoolExecutor._resize"], "old != new in 1..3, dead workers before/after the spawn, pool breaks meanwhile"),
         H("C01", "lokyverif.harness.c02_broken", "check_wait_table", 1200 if tier == "thorough" else 400,
           ["loky.process_executor:_ExecutorManagerThread.wait_result_broken_or_wakeup"], "readiness subset symbolic"),
